@@ -35,6 +35,8 @@ func engineAtom(kind string) *Atom {
 		return CmpAtom("L", "r.log.LastIndex()", "p0.PrevLogIndex")
 	case "V":
 		return BoolAtom("V", "r.operationManager.shouldVerifyQuorum")
+	case "M":
+		return BoolAtom("M", "r.configuration.IsVoter[p0]")
 	}
 	return CmpAtom("T", "r.currentTerm", "p0.Term")
 }
@@ -94,6 +96,20 @@ var engineCases = []engineCase{
 	{"zzMaxBound", "T", map[string]probeWant{"a": {">", "<="}, "b": {"<=>", ""}}},
 	{"zzMinNegated", "T", map[string]probeWant{"a": {"<", "=>"}, "b": {"<=>", ""}}},
 	{"zzMinStale", "T", map[string]probeWant{"a": {"=>", ""}}},
+	// map facts
+	{"zzMapDirect", "M", map[string]probeWant{"yes": {"T", "F"}, "no": {"F", "T"}}},
+	{"zzMapUpdateSameKey", "M", map[string]probeWant{"a": {"F", ""}}},
+	{"zzMapDelete", "M", map[string]probeWant{"a": {"F", ""}}},
+	{"zzMapOtherKey", "M", map[string]probeWant{"a": {"FT", ""}}},
+	{"zzMapAlias", "M", map[string]probeWant{"a": {"F", ""}}},
+	{"zzMapOwnerReplaced", "M", map[string]probeWant{"a": {"F", ""}}},
+	{"zzMapOwnerAlias", "M", map[string]probeWant{"a": {"F", ""}}},
+	{"zzMapWindow", "M", map[string]probeWant{"a": {"FT", ""}}},
+	{"zzMapCallee", "M", map[string]probeWant{"a": {"F", ""}}},
+	{"zzMapStale", "M", map[string]probeWant{"a": {"F", ""}}},
+	{"zzMapKeyReassigned", "M", map[string]probeWant{"a": {"T", ""}, "b": {"T", ""}}},
+	{"zzMapUnrelatedStore", "M", map[string]probeWant{"a": {"T", "F"}}},
+	{"zzMapAppliedConfiguration", "M", map[string]probeWant{"a": {"FT", ""}}},
 	{"zzMinWrongDirection", "T", map[string]probeWant{"a": {"<=>", ""}, "b": {"<=", ">"}}},
 }
 
